@@ -198,30 +198,35 @@ def build_root(t, ir, stats):
 # ---------------------------------------------------------------------------------------------
 # judging one evaluation
 # ---------------------------------------------------------------------------------------------
-def judge(result, q, ir):
-    """None if `result` is what the specification's value q = [n, d] demands, else (kind, shown)."""
-    n, d = q
-    if d == 1:
-        if type(result) is int:
-            return None if result == n else ("wrong-value", repr(result))
-        if isinstance(result, ir.SymbolicDim):
-            return ("wrong-type", f"SymbolicDim({result.value!r}) for the integer {n}")
-        return ("wrong-type", repr(result))
-    if isinstance(result, ir.SymbolicDim):
-        txt = result.value
-        try:
-            f = fractions.Fraction(txt.replace(" ", "")) if txt is not None else None
-        except (ValueError, ZeroDivisionError):
-            f = None
-        if f is None:
-            return ("wrong-type", f"SymbolicDim({txt!r}) for the fraction {n}/{d}")
-        if f != fractions.Fraction(n, d):
-            return ("wrong-value", f"SymbolicDim({txt!r})")
-        again = result.evaluate({})
-        if not (isinstance(again, ir.SymbolicDim) and again.value == txt):
-            return ("wrong-value", f"SymbolicDim({txt!r}) re-evaluates to {again!r}")
+def _as_fraction(dim):
+    txt = dim.value
+    try:
+        return fractions.Fraction(txt.replace(" ", "")) if txt is not None else None
+    except (ValueError, ZeroDivisionError):
         return None
-    return ("wrong-type", f"{result!r} for the fraction {n}/{d}")
+
+
+def judge(result, q, ir):
+    """None if `result` is what the specification's value q = [n, d] demands, else (kind, shown).
+    kind: wrong-value (a different number), wrong-type (the right number in the wrong representation, or
+    something that is not a number at all)."""
+    n, d = q
+    want = fractions.Fraction(n, d)
+    if type(result) is int:
+        return None if (d == 1 and result == n) else ("wrong-value", repr(result))
+    if isinstance(result, ir.SymbolicDim):
+        f = _as_fraction(result)
+        if f is None:
+            return ("wrong-type", f"SymbolicDim({result.value!r}) for the number {_expected(q)}")
+        if f != want:
+            return ("wrong-value", f"SymbolicDim({result.value!r})")
+        if d == 1:
+            return ("wrong-type", f"SymbolicDim({result.value!r}) for the integer {n}")
+        again = result.evaluate({})
+        if not (isinstance(again, ir.SymbolicDim) and again.value == result.value):
+            return ("wrong-value", f"SymbolicDim({result.value!r}) re-evaluates to {again!r}")
+        return None
+    return ("wrong-type", f"{result!r} for the number {_expected(q)}")
 
 
 def _expected(q) -> str:
@@ -494,6 +499,69 @@ def fix_neg_pow(toks):
     return toks if changed else None
 
 
+def paren_text(t) -> str:
+    """Fully parenthesised text of a tree in the documented grammar (classification only)."""
+    op = t["op"]
+    if op == "sym":
+        return t["s"]
+    if op == "int":
+        return str(t["k"])
+    a = paren_text(t["a"])
+    if op == "neg":
+        return f"(-{a})"
+    if op in ("floor", "sqrt"):
+        return f"{op}({a})"
+    if op == "ceil":
+        return f"(-floor((-{a})))"
+    if op == "trunc":
+        return f"(max(floor({a}), 0) + min((-floor((-{a}))), 0))"
+    b = paren_text(t["b"])
+    if op in ("min", "max"):
+        return f"{op}({a}, {b})"
+    sym = {"add": "+", "sub": "-", "mul": "*", "truediv": "/", "floordiv": "//", "mod": "%", "pow": "**"}[op]
+    return f"({a} {sym} {b})"
+
+
+def _text_fails(text, t, envs, ir) -> bool:
+    try:
+        d = ir.SymbolicDim(text)
+        for env in envs:
+            q = py_eval(t, env)
+            if q is not None and judge(d.evaluate(env), [q.numerator, q.denominator], ir) is not None:
+                return True
+    except Exception:  # noqa: BLE001
+        return True
+    return False
+
+
+def localise_text(t, envs, ir):
+    for k in ("a", "b"):
+        c = t.get(k)
+        if isinstance(c, dict) and c["op"] not in ("sym", "int") and _text_fails(paren_text(c), c, envs, ir):
+            return localise_text(c, envs, ir)
+    return t
+
+
+def has_symbolic_exponent(t) -> bool:
+    if t["op"] == "pow" and has_syms(t["b"]):
+        return True
+    return any(has_symbolic_exponent(t[k]) for k in ("a", "b") if k in t)
+
+
+def classify_grammar(f, t, envs, ir, expected_by_env) -> str:
+    """Signature of a failure of the grammar part (t: the tree the string means according to TLC)."""
+    kind = f["kind"]
+    if kind == "rejected":
+        return classify(f, t["op"], ir, expected_by_env)
+    sig = classify(f, t["op"], ir, expected_by_env)
+    if sig.endswith(":unary-minus-power"):
+        return sig
+    if not _text_fails(paren_text(t), t, envs, ir):
+        return f"C16:grammar:{kind}:precedence:{t['op']}"
+    sub = localise_text(t, envs, ir)
+    return f"C16:grammar:{kind}:{sub['op']}" + (":symbolic-exponent" if has_symbolic_exponent(sub) else "")
+
+
 def classify(f, root_op, ir, expected_by_env=None) -> str:
     """Structural signature of a failure."""
     check, kind = f["check"], f["kind"]
@@ -502,7 +570,7 @@ def classify(f, root_op, ir, expected_by_env=None) -> str:
         if m:
             return f"C16:{check}:rejected:unknown-function:{m.group(1)}"
         return f"C16:{check}:rejected:{(f.get('exc') or 'error').split(':')[0]}"
-    if kind == "wrong-value" and check in ("reparse", "serde", "grammar") and f.get("text") and expected_by_env:
+    if kind in ("wrong-value", "wrong-type") and check in ("reparse", "serde", "grammar") and f.get("text") and expected_by_env:
         toks = lex(f["text"])
         fixed = fix_neg_pow(toks) if toks else None
         if fixed is not None:
@@ -537,6 +605,10 @@ def py_eval(t, env):
         return F(math.ceil(a))
     if op == "trunc":
         return F(math.trunc(a))
+    if op == "sqrt":
+        if a.denominator != 1 or a < 0 or math.isqrt(a.numerator) ** 2 != a.numerator:
+            return None
+        return F(math.isqrt(a.numerator))
     b = py_eval(t["b"], env)
     if b is None:
         return None
@@ -550,6 +622,10 @@ def py_eval(t, env):
         return min(a, b)
     if op == "max":
         return max(a, b)
+    if op == "pow":
+        if b.denominator != 1 or abs(b) > 64 or (a == 0 and b < 0):
+            return None
+        return a ** int(b)
     if b == 0:
         return None
     if op == "truediv":
@@ -601,7 +677,7 @@ def run_chunk(task) -> dict:
     res = dict(trees=0, evals=0, texts=0, text_evals=0, viol={}, stats={}, blocked={}, printed=[], keys={},
                skipped_undef=0, nonint=0, simplify_s=0.0, simplify_max=0.0, residual_texts=0, samples=[],
                wall=0.0, undefined_everywhere=0)
-    t00 = time.time()
+    t00 = time.process_time()
 
     def add_violation(sig, detail):
         cur = res["viol"].get(sig)
@@ -640,7 +716,7 @@ def run_chunk(task) -> dict:
                 res["printed"].append(dict(id=rec["id"], text=o["text"]))
             key = shape_key(t) + ("|undef" if o["skipped_undef"] else "") + ("|frac" if o["nonint"] else "")
             res["keys"][key] = res["keys"].get(key, 0) + 1
-            if len(res["samples"]) < 1 and rec.get("d", 0) >= 2 and o["text"]:
+            if len(res["samples"]) < 1 and rec.get("d", 0) >= 2 and o["text"] and o["nonint"] and has_syms(t):
                 res["samples"].append(dict(tree=tree_str(t), printed=o["text"], simplified=o["simp_text"],
                                            values=[_expected(q) if q[1] else "undef" for q in vals]))
             seen = set()
@@ -654,7 +730,7 @@ def run_chunk(task) -> dict:
                 if f["check"] == "evaluate" and f["kind"] in ("wrong-value", "wrong-type", "exception"):
                     if where is None:
                         where = localise(t, envs, ir)
-                    sig = f"C16:evaluate:{f['kind']}:{shape_key(where)}" + ("" if has_syms(where) else ":closed")
+                    sig = f"C16:evaluate:{f['kind']}:{where['op']}" + ("" if has_syms(where) else ":closed")
                     if sig in seen:
                         continue
                     seen.add(sig)
@@ -706,7 +782,7 @@ def run_chunk(task) -> dict:
                 res["keys"][gk] = res["keys"].get(gk, 0) + 1
                 seen = set()
                 for f in fails:
-                    sig = classify(f, root if kind != "shape" else "shape:" + "".join(rec["toks"]), ir, mexp)
+                    sig = classify_grammar(f, t, envs, ir, mexp)
                     if sig in seen:
                         continue
                     seen.add(sig)
@@ -714,7 +790,7 @@ def run_chunk(task) -> dict:
                         size=len(toks), case=dict(kind="text", text=text, mvals=mvals, t=t, envs=envs), tree=tree_str(t),
                         printed=None, failure={k: v for k, v in f.items() if v is not None},
                         message=_message(f, tree_str(t), None)))
-    res["wall"] = time.time() - t00
+    res["wall"] = time.process_time() - t00
     return res
 
 
